@@ -19,6 +19,16 @@ CLAIMED = {
         text="Theorem C19_atomic: for every directory state, key, value and crash index the key holds old-or-new and other files are untouched; C19_sequences lifts it to SaveEntity and the three-Set configuration rewrite. Tie: a child process built from /repo with -tags verif is SIGKILLed at each of the 6 crash points per Set (all old/new length classes, sequences, SaveEntity, full NewIPTransport restart), the directory is re-read by a fresh store and compared with the extracted model's crash state and with the property oracle; strace confirms the system-call sequence equals the model's set_ops.",
         design="5/C19",
         note="Process-kill semantics only (no power-loss reordering); a single write(2) is not torn by SIGKILL; crash points are the hook calls of commit a17b149. No axioms."),
+    "C05": dict(
+        technique="Coq induction over the frames of an arbitrary input stream (accepted frames = the sent ones or a forgery event), for any AEAD with open∘seal=id and for the Gallina ChaCha20-Poly1305 instance; differential correspondence on exhaustively bit-flipped / truncated / permuted / replayed / reflected streams",
+        text="C05_prefix_or_forgery quantifies over every key, counter, plaintext list and EVERY input byte string; the code's receive loop releases a frame-prefix of what was sent, ends cleanly only on an exact frame-prefix and errs no later than the first altered frame, unless open accepted a frame the peer never sealed (the AEAD's INT-CTXT assumption, stated not proved). Key separation is proved for the labels regenerated from the Go source. The extracted model (with its own ChaCha20-Poly1305/HKDF-SHA-512, RFC-vector checked) and hc's session run on the same altered streams; an independent oracle checks the prefix property on hc's output.",
+        design="5/C05",
+        note="Cryptographic assumption = no forgery event; x/crypto primitives trusted to implement the RFCs (cross-checked against the Gallina instance byte for byte). No axioms."),
+    "C06": dict(
+        technique="Coq proofs: packetiser independent of reader chunking, Encrypt = specification wire format, Decrypt∘Encrypt = id for all lengths and message sequences (counter continuity), constants regenerated from the Go source equal the specification's; byte-exact differential correspondence incl. a Gallina ChaCha20-Poly1305 + HKDF-SHA-512",
+        text="Theorems hold for every shared secret, payload, reader schedule and message sequence; the wire-format theorem is parametric in the AEAD and the round trip is proved for the concrete Gallina ChaCha20-Poly1305 (open∘seal=id proved). Gen/Extracted.v (frame size, HKDF labels per direction, nonce offset) is regenerated from /repo on every run and the constants theorem recompiled. The extracted model, hc and an x/crypto reference framer are compared byte for byte over all payload lengths (thorough: 0..4097 exhaustively) and reader behaviours.",
+        design="5/C06",
+        note="Readers return non-empty pieces until exhausted. x/crypto trusted; Gallina crypto validated by RFC 8439 / FIPS 180-4 / RFC 5869 vectors under vm_compute. No axioms."),
 }
 PENDING_REASON = "not yet claimed: model/theorems for this property are still being built in this development (see DESIGN.md section 10 for the order of work)"
 
